@@ -17,6 +17,7 @@ import heapq
 import itertools
 import json
 import threading
+import zlib
 
 
 class Again(Exception):
@@ -240,6 +241,7 @@ class World:
         self.drops = {(int(l), int(n)) for l, n in (net.get('drops') or [])}
         self.ties = net.get('ties') or [0]
         self.flush_on_reconnect = net.get('flush', True)
+        self.keyed = bool(net.get('keyed'))   # delay/connect tables chosen by (client, server, type) instead of creation order: stable when actors are added/removed
         self.delay_ctr = {}
         self.link_keys = {}
         self.blocks_total = 0
@@ -274,7 +276,8 @@ class World:
         return (client.actor.name, server.actor.name, client.typ)
 
     def schedule_connect(self, client, server):
-        d = self.conn_delays[next(self.conn_count) % len(self.conn_delays)] * 1000
+        i = zlib.crc32(repr(self.link_key(client, server)).encode()) if self.keyed else next(self.conn_count)
+        d = self.conn_delays[i % len(self.conn_delays)] * 1000
         self.push_event(self.now + d, ('connect', client, server))
 
     def wire(self, kind, sock, msg):
@@ -286,7 +289,7 @@ class World:
         if link.src.typ == PUB and (link.lid, n) in self.drops:
             self.log.append(('drop', self.now, link.src.actor.name, link.dst.actor.name, link.lid, msg))
             return
-        tab = self.delay_tables[link.lid % len(self.delay_tables)]
+        tab = self.delay_tables[(link.key if self.keyed else link.lid) % len(self.delay_tables)]
         i = self.delay_ctr.get(link.lid, 0)
         self.delay_ctr[link.lid] = i + 1
         t = max(link.last_arrival + 1, self.now + tab[i % len(tab)] * 1000)   # strictly later than the previous message on this link: generated tie-breaks must never reorder one link (FIFO)
@@ -368,14 +371,17 @@ class World:
                 if self.bound.get((server.typ, server.addr)) is not server:
                     continue
                 lid = next(self.link_ids)
-                link = Link(server, client, lid, None) if client.typ == SUB else Link(client, server, lid, None)
+                key = zlib.crc32(repr(self.link_key(client, server)).encode())
+                link = Link(server, client, lid, key) if client.typ == SUB else Link(client, server, lid, key)
                 link.up = True
                 client.links.append(link)
                 server.links.append(link)
                 self.log.append(('link', self.now, client.actor.name, server.actor.name, client.typ, lid))
+                first = not getattr(client, 'ever_linked', False)
+                client.ever_linked = True
                 if client.typ == PUSH and client.outq:
                     q, client.outq = client.outq, []
-                    if self.flush_on_reconnect:
+                    if self.flush_on_reconnect or first:    # libzmq keeps what was queued before the first connection; only a re-connection may lose it
                         for m in q:
                             self.wire('push', client, m)
                             self.transmit(link, m)
